@@ -47,7 +47,8 @@ ILLEGAL = ['scenario adapted twice', 'scenario adapted twice (second call)',
            'affine adapt of binary', 'affine adapt of integer', 'ldr adapt after use',
            'unknown scenario label', 'adaptive decision times random',
            'adaptive decision matmul random', 'adapt to non-random object',
-           'ldr slice adapted twice']
+           'ldr slice adapted twice', 'scenario twice in one call',
+           'scenario twice in one call (after another event)']
 
 
 def _refine_cases():
@@ -489,6 +490,11 @@ def run_illegal(spec, ctx):
         if name == 'scenario adapted twice':
             x.adapt([lab(0), lab(1)])
             x.adapt([lab(1), lab(2)])
+        elif name == 'scenario twice in one call':
+            x.adapt([lab(1), lab(1)])
+        elif name == 'scenario twice in one call (after another event)':
+            x.adapt(lab(0))
+            x.adapt([lab(1), lab(2), lab(1)])
         elif name == 'scenario adapted twice (second call)':
             x.adapt(lab(1))
             x.adapt(lab(1))
